@@ -27,10 +27,11 @@ func init() {
 	})
 	register(Check{
 		ID: "C10", Title: "Lexical scoping and structured control flow", Level: "model_checking",
-		Units: []Unit{evalUnit([]string{"evaluator/common.go", "evaluator/gen.go", "evaluator/c10.go", "evaluator/c12.go"},
+		Units: []Unit{evalUnit([]string{"evaluator/common.go", "evaluator/gen.go", "evaluator/gen2.go", "evaluator/c10.go", "evaluator/c12.go"},
 			Harness{Fn: "ZZC12Iter", Quick: p("K", 3), Thorough: p("K", 4), Expect: []string{"iter-ok", "witness:end"}},
 			Harness{Fn: "ZZC10Structure", Quick: p("D", 2, "L0", 1, "L1", 1, "L2", 1), Thorough: p("D", 2, "L0", 1, "L1", 2, "L2", 1, "DECLFIRST", 1), ThoroughBudget: 25 * time.Minute, Expect: []string{"structure-ok", "witness:end"}},
 			Harness{Fn: "ZZC10Range", Quick: p("U", 3), Thorough: p("U", 5), Expect: []string{"range-ok", "zero-step", "witness:end"}, Cross: true},
+			Harness{Fn: "ZZC10Funcs", Quick: p("D", 2, "L0", 1, "L1", 1, "L2", 1, "R", 1), Thorough: p("D", 2, "L0", 2, "L1", 1, "L2", 1, "R", 2), ThoroughBudget: 25 * time.Minute, Expect: []string{"funcs-f", "funcs-g", "witness:end"}},
 		)},
 		Assumptions: []string{
 			"program family: nestings up to depth D of if / if-else / while / for over num, array, string, map / procedure call (defined after use), with shadowing declarations of x, assignments, prints, break and return in every legal position; blocks of at most L0/L1/L2 statements at depth 0/1/2; the global x and both condition variables are symbolic",
